@@ -880,6 +880,18 @@ class Interp:
         for lid in self.assigned_locals(e["body"]):
             if lid in env:
                 env[lid] = self.fresh("loop")
+        # interpret the body once on the havocked state: its calls, effects and panic sites are still facts
+        fr.loops.append({"brk": [], "cont": []})
+        saved = fr.rets
+        fr.rets = []
+        try:
+            self.block(e["body"], dict(env), fr)
+        finally:
+            inner_rets = fr.rets
+            fr.rets = saved
+            fr.loops.pop()
+        if inner_rets:
+            self.note(fr, "return inside an unmodelled loop", e)
         return (UNIT, env)
 
     def assigned_locals(self, node, acc=None):
